@@ -7,6 +7,11 @@
 //     an order it chooses;
 //   - the reading end can be told to return SHORT READS: at most k bytes per Read call following a cyclic
 //     pattern (SetReadChunks), as a TCP socket may;
+//   - the reading end can be told to return DATA TOGETHER WITH AN ERROR from one Read call, which the io.Reader
+//     contract allows and message-based / buffered / QUIC-like connections do (a kernel socket and net.Pipe
+//     never do): the segment that drains the stream after the writer closed comes together with io.EOF
+//     (SetEOFWithData), and an injected read fault - a connection reset, an expired deadline - comes together
+//     with the segment that ends at a chosen byte position (FailReadAfter);
 //   - a capture / edit / release "wire editor": the reading end can hold back everything the peer writes
 //     (HoldIncoming), the harness inspects the captured bytes (Held), edits them frame-aware (SplitFrames,
 //     Edit.Apply in c02_wire.go) and injects the result (Inject) - a man in the middle that acts between
@@ -44,6 +49,9 @@ type pipe struct {
 	chunks []int // short-read pattern of the reader (0 = unlimited), cyclic
 	ci     int
 
+	eofJoin bool       // the Read that drains the stream after the writer closed returns its bytes together with io.EOF
+	fault   *readFault // injected read fault (FailReadAfter)
+
 	rdGen     int // deadline generation (stale timers are ignored)
 	rdExpired bool
 	rdTimer   *time.Timer
@@ -55,6 +63,17 @@ type pipe struct {
 }
 
 const maxWriteLog = 1 << 16
+
+// readFault is an injected fault of the reading side: the connection breaks once `at` bytes in total have been
+// delivered to the reader. The Read that delivers byte number `at` is cut there; it returns its bytes together
+// with err (withData), or alone with the error following on the next call (the way a kernel socket reports
+// it). From then on every Read returns (0, err): nothing that was still in flight is delivered.
+type readFault struct {
+	at       int64
+	err      error
+	withData bool
+	fired    bool
+}
 
 func newPipe() *pipe {
 	p := &pipe{}
@@ -101,6 +120,11 @@ func (c *Conn) Read(b []byte) (int, error) {
 		if len(b) == 0 {
 			return 0, nil
 		}
+		f := p.fault
+		if f != nil && (f.fired || p.bytesR >= f.at) {
+			f.fired = true
+			return 0, f.err
+		}
 		if avail := len(p.buf) - p.off; avail > 0 {
 			n := len(b)
 			if n > avail {
@@ -112,14 +136,26 @@ func (c *Conn) Read(b []byte) (int, error) {
 				}
 				p.ci++
 			}
+			var err error
+			if f != nil && p.bytesR+int64(n) >= f.at {
+				// the segment ends where the connection breaks
+				n = int(f.at - p.bytesR)
+				f.fired = true
+				if f.withData {
+					err = f.err
+				}
+			}
 			copy(b, p.buf[p.off:p.off+n])
 			p.off += n
 			if p.off == len(p.buf) {
 				p.buf, p.off = p.buf[:0], 0
+				if p.eofJoin && p.wclosed && err == nil {
+					err = io.EOF // the last segment and the end of the stream in one call
+				}
 			}
 			p.nRead++
 			p.bytesR += int64(n)
-			return n, nil
+			return n, err
 		}
 		if p.wclosed {
 			return 0, io.EOF
@@ -273,6 +309,34 @@ func (c *Conn) SetReadChunks(pattern ...int) {
 	p.ci = 0
 	p.mu.Unlock()
 }
+
+// SetEOFWithData chooses how the end of the stream reaches THIS end's reader: off (default) - like a kernel
+// socket, the bytes first and (0, io.EOF) from a later Read; on - the Read that hands out the last deliverable
+// byte after the writer closed (or after EndIncoming) returns (n > 0, io.EOF), as io.Reader allows.
+func (c *Conn) SetEOFWithData(on bool) {
+	p := c.in
+	p.mu.Lock()
+	p.eofJoin = on
+	p.mu.Unlock()
+}
+
+// FailReadAfter injects a read fault on THIS end: the connection breaks after k more bytes have been delivered
+// to the reader. withData: the Read that delivers the last of them returns (n > 0, err) - the segment arrives
+// together with the error; otherwise that Read returns (n, nil) and the next one (0, err). Afterwards every
+// Read (with a non-empty buffer) returns (0, err). k <= 0: the next Read fails without data.
+func (c *Conn) FailReadAfter(k int64, err error, withData bool) {
+	p := c.in
+	p.mu.Lock()
+	p.fault = &readFault{at: p.bytesR + k, err: err, withData: withData}
+	p.cond.Broadcast()
+	p.mu.Unlock()
+}
+
+// ErrReset is the injected "connection reset by peer" (not a timeout, not temporary).
+var ErrReset error = &net.OpError{Op: "read", Net: "tcp", Err: syscall.ECONNRESET}
+
+// ErrTimeout is the injected expired read deadline (a net.Error with Timeout() == true).
+var ErrTimeout error = &net.OpError{Op: "read", Net: "tcp", Err: os.ErrDeadlineExceeded}
 
 // HoldIncoming switches capture mode for the direction peer -> this end. While on, the peer's writes succeed
 // but are kept aside (one element per Write) instead of becoming readable here.
